@@ -110,6 +110,11 @@ func (p c14) real(r *core.Result, c core.Case) {
 		{"halfclose-after-new", []string{`{"state":"new"}`, "@halfclose"}},
 		{"truncated", []string{`{"state":"new"}`, `{"id":"$id","state":"authentic`, "@halfclose"}},
 	}
+	// a peer whose first envelope is not a new session and which vanishes at once: the handshake ends without an
+	// error, without a session and possibly without a connection to refuse it on
+	for k := 0; k < 24; k++ {
+		scripts = append(scripts, script{fmt.Sprintf("not-new-then-vanish-%02d", k), []string{"@pause", `{"state":"authenticating","scheme":"guest","authentication":{}}`, "@close-now"}})
+	}
 	var wg sync.WaitGroup
 	var mu sync.Mutex
 	fps := map[string]bool{}
@@ -169,6 +174,14 @@ func (p c14) runReal(sr *rig.ServerRig, flavour string, steps []string) (closed 
 				_ = conn.(*net.TCPConn).CloseWrite()
 				continue
 			}
+			if st == "@pause" {
+				time.Sleep(time.Millisecond)
+				continue
+			}
+			if st == "@close-now" {
+				_ = conn.Close()
+				return true, "n/a"
+			}
 			line := replaceID(st, id)
 			suffix := "\n"
 			if len(st) > 0 && st[len(st)-1] != '}' && st[0] == '{' && st != "{{{" {
@@ -198,6 +211,14 @@ func (p c14) runReal(sr *rig.ServerRig, flavour string, steps []string) (closed 
 				// websocket has no half-close: send a close frame and keep reading
 				_ = conn.WriteControl(websocket.CloseMessage, websocket.FormatCloseMessage(websocket.CloseNormalClosure, ""), time.Now().Add(time.Second))
 				continue
+			}
+			if st == "@pause" {
+				time.Sleep(time.Millisecond)
+				continue
+			}
+			if st == "@close-now" {
+				_ = conn.Close()
+				return true, "n/a"
 			}
 			_ = conn.WriteMessage(websocket.TextMessage, []byte(replaceID(st, id)))
 			if st == `{"state":"new"}` {
@@ -233,6 +254,14 @@ func (p c14) runReal(sr *rig.ServerRig, flavour string, steps []string) (closed 
 		id := ""
 		sent := false
 		for _, st := range steps {
+			if st == "@pause" {
+				time.Sleep(time.Millisecond)
+				continue
+			}
+			if st == "@close-now" {
+				_ = t.Close()
+				return true, "n/a"
+			}
 			var env interface{}
 			switch {
 			case st == `{"state":"new"}`:
